@@ -44,7 +44,7 @@ def job(item):
     from symengine import sympify as se
     from unsolvable_analysis import UnsolvInvSynthesizer, SolvLoopSynthesizer
     path, cvars, deg, k, N, mode = item["path"], item["vars"], item["deg"], item["k"], item["N"], item["mode"]
-    name = f"{mode}/{path.split('/')[-1][:-5]}/{cvars}/deg={deg}/k={k}"
+    name = f"{mode}/{path.split('/')[-1][:-5]}/{cvars}/deg={deg}/k={k}" + (f"/after:{item['prefix'].split('/')[-1][:-5]}" if item.get("prefix") else "")
     out = {"name": name, "records": [], "stats": smt.new_stats(), "refusals": [], "checked": 0, "mutants": 0, "solutions": 0}
     text = open(path).read()
     if item.get("init"):
@@ -67,6 +67,16 @@ def job(item):
         if not cvars:
             return out
     vs = [se(v) for v in cvars]
+    if item.get("prefix"):
+        # another loop is analysed first in the same process (same variable names, different dynamics): nothing of it may
+        # survive into this analysis
+        try:
+            with polar_iface.time_limit(120):
+                pprog = polar_iface.normalized(open(item["prefix"]).read())
+                UnsolvInvSynthesizer.synth_inv([se(v) for v in item["prefix_vars"]], 1, pprog, None)
+        except Exception:  # noqa
+            pass
+        polar_iface.set_settings()
     try:
         with polar_iface.time_limit(item.get("timeout", 300)):
             if mode == "inv":
@@ -214,8 +224,13 @@ def main():
         items.append({"path": p, "vars": v, "deg": d, "k": k, "N": N, "mode": "inv", "timeout": 200 if run.quick else 600, "init": init})
         if d <= 2:
             items.append({"path": p, "vars": v, "deg": d, "k": None, "N": N, "mode": "loop", "timeout": 200 if run.quick else 600, "init": init})
+    # sequences of analyses in one process: loops that share variable names
+    for pre, tgt in ((TESTS + "squares.prob", OWN + "u04_counting_effective.prob"), (OWN + "u04_counting_effective.prob", TESTS + "squares.prob"),
+                     (OWN + "u01_transient_effective.prob", OWN + "u03_delay_effective.prob")):
+        items.append({"path": tgt, "vars": ["x", "y"], "deg": 1, "k": None, "N": N, "mode": "inv", "timeout": 200, "prefix": pre, "prefix_vars": ["x", "y"]})
+    items.append({"path": OWN + "u04_counting_effective.prob", "vars": ["x", "y"], "deg": 1, "k": None, "N": N, "mode": "inv", "timeout": 200})
     if run.args.only:
-        items = [i for i in items if run.args.only in i["path"]]
+        items = [i for i in items if run.args.only in i["path"] or run.args.only in i.get("prefix", "")]
     results = jobs.run_jobs(job, items, timeout=400 if run.quick else 1500)
     run.notes.append({"slowest_jobs": jobs.slowest(items, lambda it: it["path"].split("/")[-1] + str(it["deg"]))})
     programs = checked = muts = sols = 0
